@@ -329,6 +329,27 @@ theorem rs_move_roundtrip (f : MoveF) (h : FieldsFit f) : (rsEncode f).bind rsDe
 
 #print axioms rs_move_roundtrip
 
+/-- folding `field b MASK SHIFT` back into the model's `decode b` (a statement about the model only; used by `ZobristXor.lean`,
+`Make.lean`, `Unmake.lean` after rewriting with the getter lemmas above) -/
+theorem fold_decode (b : UInt64) :
+    field b pieceMovedMask pieceMovedShift = (decode b).pieceMoved ∧
+    field b pieceAttackedMask pieceAttackedShift = (decode b).pieceAttacked ∧
+    (field b selfLostKingMask selfLostKingShift != 0) = (decode b).selfLostKing ∧
+    (field b selfLostQueenMask selfLostQueenShift != 0) = (decode b).selfLostQueen ∧
+    (field b oppLostKingMask oppLostKingShift != 0) = (decode b).oppLostKing ∧
+    (field b oppLostQueenMask oppLostQueenShift != 0) = (decode b).oppLostQueen ∧
+    (field b castleMoveMask castleMoveShift != 0) = (decode b).castle ∧
+    (field b enPassantAttackMask enPassantAttackShift != 0) = (decode b).enPassant ∧
+    field b sourceSquareMask sourceSquareShift = (decode b).source ∧
+    field b targetSquareMask targetSquareShift = (decode b).target ∧
+    (field b halfmoveResetMask halfmoveResetShift != 0) = (decode b).halfmoveReset ∧
+    field b previousHalfmoveMask previousHalfmoveShift = (decode b).prevHalfmove ∧
+    field b previousEnPassantMask previousEnPassantShift = (decode b).prevEp ∧
+    field b nextEnPassantMask nextEnPassantShift = (decode b).nextEp ∧
+    field b promotionPieceMask promotionPieceShift = (decode b).promotion ∧
+    field b sideToMoveMask sideToMoveShift = (decode b).side :=
+  ⟨rfl, rfl, rfl, rfl, rfl, rfl, rfl, rfl, rfl, rfl, rfl, rfl, rfl, rfl, rfl, rfl⟩
+
 /-! non-vacuity -/
 example : rsDecode 0x1000000041043 = some (decode 0x1000000041043) := rs_move_decode_eq _
 example : (decode 0x1000000041043).source = 1 ∧ (decode 0x1000000041043).pieceMoved = 3 := by decide
@@ -339,5 +360,50 @@ example : Rs.Move.set_source_square 0 63 = some 0x3f000 := by decide
 #print axioms rs_move_masks
 #print axioms rs_move_shifts
 #print axioms rs_piece_consts
+
+/-! axiom audit of the remaining `rs_*` theorems of this file -/
+#print axioms rs_get_piece_moved
+#print axioms rs_get_piece_attacked
+#print axioms rs_get_self_lost_king_side_castle
+#print axioms rs_get_self_lost_queen_side_castle
+#print axioms rs_get_opponent_lost_king_side_castle
+#print axioms rs_get_opponent_lost_queen_side_castle
+#print axioms rs_get_castle_move
+#print axioms rs_get_en_passant_attack
+#print axioms rs_get_halfmove_reset
+#print axioms rs_get_promotion_piece
+#print axioms rs_get_source_square
+#print axioms rs_get_target_square
+#print axioms rs_get_previous_halfmove
+#print axioms rs_get_previous_en_passant_square
+#print axioms rs_get_next_en_passant_square
+#print axioms rs_get_side_to_move
+#print axioms rs_is_self_lost_king_side_castle
+#print axioms rs_is_self_lost_queen_side_castle
+#print axioms rs_is_opponent_lost_king_side_castle
+#print axioms rs_is_opponent_lost_queen_side_castle
+#print axioms rs_is_en_passant_attack
+#print axioms rs_is_castle_move
+#print axioms rs_is_halfmove_reset
+#print axioms rs_is_attack
+#print axioms rs_is_promotion
+#print axioms rs_is_attack_eq
+#print axioms rs_is_promotion_eq
+#print axioms rs_set_piece_moved
+#print axioms rs_set_piece_attacked
+#print axioms rs_set_promotion_piece
+#print axioms rs_set_source_square
+#print axioms rs_set_target_square
+#print axioms rs_set_previous_halfmove
+#print axioms rs_set_previous_en_passant_square
+#print axioms rs_set_next_en_passant_square
+#print axioms rs_set_side_to_move
+#print axioms rs_set_self_lost_king_side_castle
+#print axioms rs_set_self_lost_queen_side_castle
+#print axioms rs_set_opponent_lost_king_side_castle
+#print axioms rs_set_opponent_lost_queen_side_castle
+#print axioms rs_set_halfmove_reset
+#print axioms rs_set_castle_move
+#print axioms rs_set_en_passant_attack
 
 end Inkayaku.Translated
